@@ -87,6 +87,23 @@ theorem nothing_yielded_after_stop (v : Variant) (s s' : St) (h : Step v s s') (
 theorem stop_is_monotone (v : Variant) (s s' : St) (h : Step v s s') (hs : s.c.ctl.hasToStop = true) :
     s'.c.ctl.hasToStop = true := step_hasToStop_mono v s s' h hs
 
+/-- **after a stop request, for the rest of the phase** (any number of further steps, any schedule): the worker events
+    in the stream stay exactly those that were there when the request was made, and the request stays in force -/
+theorem nothing_yielded_after_stop_ever (v : Variant) (s s' : St) (h : Reach v s s') (hs : s.c.ctl.stop = true) :
+    yieldedW s'.c.out = yieldedW s.c.out ∧ s'.c.ctl.stop = true := by
+  induction h with
+  | refl => exact ⟨rfl, hs⟩
+  | step a b _ hstep ih =>
+    have := nothing_yielded_after_stop v a b hstep ih.2
+    exact ⟨this.1.trans ih.1, this.2⟩
+
+/-- a stop or limit request is never withdrawn, however the phase continues -/
+theorem stop_is_monotone_ever (v : Variant) (s s' : St) (h : Reach v s s') (hs : s.c.ctl.hasToStop = true) :
+    s'.c.ctl.hasToStop = true := by
+  induction h with
+  | refl => exact hs
+  | step a b _ hstep ih => exact step_hasToStop_mono v a b hstep ih
+
 /-! ### unique inputs: the outcome cache as a set -/
 
 /-- `cached_test_func` with `unique_inputs`: a key already in the cache is not sent again -/
